@@ -105,10 +105,12 @@ def build_request(ch: Any, host: FakeShmHost, own: ShmSegment | None, label: str
     desc["method"] = repr(mname)
     desc["version"] = repr(ver)
     # ---- shared-memory keys
-    shm_kind = ch.choose(8, label + ".shm")
+    shm_kind = ch.choose(12, label + ".shm")
     if shm_kind:
         names = {1: own.name.encode() if own else b"missing_segment", 2: b"no_such_segment_xyz", 3: b"foreign_segment",
-                 4: own.name.encode() if own else b"x", 5: b"\xff\xfebad", 6: b"", 7: b"foreign_segment"}
+                 4: own.name.encode() if own else b"x", 5: b"\xff\xfebad", 6: b"", 7: b"foreign_segment",
+                 # names the OS refuses before any lookup (EINVAL, not ENOENT) and one that never reaches it (NUL)
+                 8: b"a/b", 9: b".", 10: b"n" * 300, 11: b"a\x00b"}
         md[b"vgi_rpc.shm_segment_name"] = names[shm_kind]
         size_kind = ch.choose(6, label + ".shmsize")
         sizes = [str(own.size if own else 4096).encode(), None, b"abc", b"-1", b"0", b"99999999999999999999"]
@@ -168,6 +170,39 @@ def build_request(ch: Any, host: FakeShmHost, own: ShmSegment | None, label: str
             arrays.append(pa.array(vals, type=f.type))
     batch = pa.RecordBatch.from_arrays(arrays, schema=schema) if fields else pa.RecordBatch.from_struct_array(
         pa.array([{}] * rows, type=pa.struct([])))
+    # ---- the request batch may travel through the peer's own shared-memory segment: the wire carries a zero-row pointer
+    # batch, the segment a payload that was written under the same schema, under a schema with one column retyped, or
+    # under an unrelated one (for schemas with dictionary columns the segment holds no schema message at all, so the
+    # server reads the peer's bytes under the pointer's schema)
+    if own is not None and fields and rows and ch.chance(1, 4, label + ".viashm"):
+        pk = ch.choose(3, label + ".shmpayload")
+        pfields = list(fields)
+        if pk == 1:
+            j = ch.choose(len(pfields), label + ".shmcol")
+            pfields[j] = pa.field(pfields[j].name, COL_TYPES[ch.choose(len(COL_TYPES), label + ".shmtype")], pfields[j].nullable)
+        elif pk == 2:
+            pfields = [pa.field("s", pa.string())]
+        parrays = []
+        for f in pfields:
+            vals = [col_value(f.type, 555 + r) for r in range(rows)]
+            parrays.append(pa.array(vals, type=pa.string()).dictionary_encode().cast(f.type) if pa.types.is_dictionary(f.type)
+                           else pa.array(vals, type=f.type))
+        try:
+            payload = pa.RecordBatch.from_arrays(parrays, schema=pa.schema([pa.field(f.name, f.type, True) for f in pfields]))
+            placed = own.allocate_and_write(payload)
+        except (pa.ArrowInvalid, pa.ArrowTypeError, ValueError):
+            placed = None
+        if placed is not None:
+            from vgi_rpc.shm import make_shm_pointer_batch
+
+            batch, pmd = make_shm_pointer_batch(schema, *placed)
+            md.update(dict(pmd.items()))
+            md[b"vgi_rpc.shm_segment_name"] = own.name.encode()
+            md[b"vgi_rpc.shm_segment_size"] = str(own.size).encode()
+            desc["shm_payload"] = pk
+            desc.pop("shm", None)
+            desc.pop("shm_ptr", None)
+            ch.fault(f"shm_payload_kind{pk}")
     buf = io.BytesIO()
     with ipc.new_stream(buf, batch.schema) as w:
         w.write_batch(batch, custom_metadata=pa.KeyValueMetadata(md))
@@ -335,6 +370,8 @@ def run(ctx: RunCtx) -> None:
 
 def _desc_site(d: dict[str, Any]) -> str:
     """The first (most specific) grammar factor of the request: keeps signatures few and stable."""
+    if "shm_payload" in d:
+        return f"shm_payload_kind={d['shm_payload']}"
     if "shm" in d:
         return f"shm_name_kind={d['shm'][0]}" + (f",size_kind={d['shm'][1]}" if d['shm'][0] in (1, 4) and d['shm'][1] >= 2 else "")
     if "shm_ptr" in d:
